@@ -154,15 +154,30 @@ fn plan_run(seed: u64, idx: u64, huge: bool) -> RunPlan {
     };
     let span = if rng.chance(1, 4) { 39 } else { 10 };
     let n_inv = 2 + rng.below(span) as usize;
-    let n_other = rng.below(3) as usize;
+    let mut n_other = rng.below(3) as usize;
+    // one process in two hundred is long-lived: hundreds of derives over hundreds of DIFFERENT small
+    // declarations (a crate with many enums), so that per-process counters or caches of limited width
+    // or capacity get the chance to wrap or evict
+    let long_lived = rng.chance(1, 200);
+    if long_lived {
+        n_other = 265 + rng.below(120) as usize;
+    }
     let mut decls = Vec::new();
-    decls.push(gen::supported(&mut rng, "D0", huge));
+    if long_lived {
+        decls.push(gen::supported_capped(&mut rng, "D0", false, 40));
+    } else {
+        decls.push(gen::supported(&mut rng, "D0", huge));
+    }
     // sometimes every declaration of the process carries the same identifier (same-named enums in
     // different modules of one crate): output must depend on the declaration, not on its name
     let same_ident = rng.chance(1, 3);
     for k in 0..n_other {
         let ident = if same_ident { "D0".to_string() } else { format!("D{}", k + 1) };
-        decls.push(gen::supported(&mut rng, &ident, false));
+        if long_lived {
+            decls.push(gen::supported_capped(&mut rng, &ident, false, 12));
+        } else {
+            decls.push(gen::supported(&mut rng, &ident, false));
+        }
     }
     // very large declarations: keep the history short
     let big = decls.iter().map(|d| d.n).max().unwrap_or(0);
@@ -184,6 +199,32 @@ fn plan_run(seed: u64, idx: u64, huge: bool) -> RunPlan {
         strategy: Strategy::Sip,
         hseed: 0,
     });
+    if long_lived {
+        for d in 1..decls.len() {
+            let thread = rng.below(nthreads) as usize;
+            history.push(Invocation {
+                decl: Some(d),
+                fault_tag: "",
+                src: decls[d].src.clone(),
+                thread,
+                strategy: STRATEGIES[rng.below(5) as usize].0,
+                hseed: rng.next_u64(),
+            });
+            if rng.chance(1, 6) {
+                // the observed declaration, or an earlier one, again
+                let again = if rng.chance(1, 2) { 0 } else { rng.below(d as u64 + 1) as usize };
+                let thread = rng.below(nthreads) as usize;
+                history.push(Invocation {
+                    decl: Some(again),
+                    fault_tag: "",
+                    src: decls[again].src.clone(),
+                    thread,
+                    strategy: STRATEGIES[rng.below(5) as usize].0,
+                    hseed: rng.next_u64(),
+                });
+            }
+        }
+    }
     for _ in 0..n_inv {
         let thread = rng.below(nthreads) as usize;
         let strategy = STRATEGIES[rng.below(5) as usize].0;
